@@ -214,18 +214,30 @@ PROPS = {
                         'Stdin::read I/O loop and --command vs stdin transport equivalence: not decided'],
     },
     'C20': {
-        'level': 'model_checking',
+        'level': 'proof',
         'kani': True,
         'native': True,
-        'engine': 'kani+native',
-        'technique': 'bounded checks of the real line-editor code: Kani/CBMC harness (count_chars_bytes) and exhaustive native enumeration against a reference editor',
-        'explanation': 'BOUNDED (never counted as proof; str/String code is outside Verus reach and CBMC timed out on it): every key sequence of '
-                       'length <= 5 over 14 keys (a, space, +, 2-byte and 4-byte characters, Backspace, Delete, Left, Right, Ctrl+Left/Right, Up, '
-                       'Down, Enter) from empty and non-empty history is executed on the real Terminal::handle_key: no panic, cursor inside the '
-                       'line after every key, history index in range, text submitted on Enter equal to a plain reference editor; word motions on '
-                       'every line <= 5 characters at every cursor; Kani: count_chars_bytes on 14 lines.',
-        'assumptions': ['bounded: sequences longer than 5 keys / other characters are not explored', 'terminal drawing, raw mode, history file: not decided',
-                        'the reference editor copies the cursor after Ctrl+Left/Right (their exact target is not specified, only its bounds)'],
+        'technique': 'contract-based deductive verification (Verus) of the real Terminal::handle_key / update_next / get_current / is_next, extracted '
+                     'mechanically on every run, against a reference editor over character sequences; the str helpers have assumed character-level '
+                     'contracts, each enumerated to a bound on the real code (engine N, Kani)',
+        'explanation': 'PROVED (Verus, unit terminal, for every key and every editor state satisfying the invariant, hence by induction for key sequences '
+                       'of any length): Terminal::handle_key never panics (every expect / -= / += / index is an obligation), keeps the history index in '
+                       'range and the cursor between 0 and the number of characters of the focused line (ed_wf), takes exactly the step key_spec of the '
+                       'plain reference editor over Seq<char> (insert/remove at the cursor, lazy copy of a focused history entry, Up/Down, Enter on a '
+                       'blank new line clears it, otherwise submits), returns true exactly when that editor submits, and leaves the history list and '
+                       'the multi-command byte cursor unchanged; update_next == ed_focus, get_current == the focused line, is_next. ASSUMED there (Verus '
+                       'cannot reason about str bytes): insert_char_index / remove_char_index insert / remove the character at a CHARACTER index, '
+                       'find_word_back / find_word_next return a value in [0, characters], chars().count() is the number of characters, '
+                       'String::len is a byte length unrelated to it. BOUNDED stand-ins for exactly those helpers and for whole sessions (never '
+                       'counted as proof): every key sequence of length <= 5 over 14 keys (a, space, +, 2-byte and 4-byte characters, Backspace, '
+                       'Delete, Left, Right, Ctrl+Left/Right, Up, Down, Enter) from empty and non-empty history on the real handle_key vs a reference '
+                       'editor; word motions on every line <= 5 characters at every cursor; Kani: count_chars_bytes on 14 lines.',
+        'assumptions': ['character-level contracts of insert_char_index, remove_char_index, find_word_back, find_word_next, chars().count(), trim().is_empty() '
+                        'are assumed in the Verus unit (external_body) and only enumerated to a bound on the real code',
+                        'a String never holds more than usize::MAX characters (std invariant: at most isize::MAX bytes)',
+                        'the exact target of Ctrl+Left/Right is not specified by the property (uninterpreted word_back / word_next, only their range)',
+                        'read_line / get_next_command (splitting the submitted line on ;), terminal drawing, raw mode, history file: not decided deductively '
+                        '(sessions enumerated to a bound)'],
     },
 }
 
